@@ -27,7 +27,7 @@ StreamEdits == {"hmagic", "hcrc", "hflag0", "checkReserved", "checkOther", "indi
                 \* all of them are modelled as "+ 2^30"; the realisation sets the bit the name says
                 "backwardHigh28", "backwardHigh30", "backwardHigh31", "countHigh"}
 BlockEdits == {"sizeBytePlus", "sizeByteMinus", "resv", "nfilters", "filterId", "propLen", "dict41", "dict255",
-               "dictLarger", "dictSmaller", "hpadNonzero", "hpadPlus4", "hcrcB", "addCsize", "addUsize",
+               "dictLarger", "dictSmaller", "hpadNonzero", "hpadPlus4", "hpadPlus4Nonzero", "hpadPlus8LastNonzero", "hcrcB", "addCsize", "addUsize",
                "csizeFPlus", "csizeFMinus", "usizeFPlus", "usizeFMinus", "padNonzero", "checkValue",
                "recUnpaddedPlus1", "recUnpaddedPlus4", "recUsizePlus", "recSwap",
                "recUnpaddedHigh", "recUsizeHigh", "csizeFHigh", "usizeFHigh"}   \* bit 32 of the value
@@ -73,6 +73,9 @@ ApplyB(e, s, i) ==
     [] e = "nfilters"      -> SetB(s, i, [b EXCEPT !.nfilters = 2])
     [] e = "filterId"      -> SetB(s, i, [b EXCEPT !.filterId = 3])
     [] e = "propLen"       -> SetB(s, i, [b EXCEPT !.propLen = 2])
+    \* a header longer than necessary (legal) whose additional padding carries a non-zero byte (not legal)
+    [] e = "hpadPlus4Nonzero" -> Reindex(SetB(s, i, [b EXCEPT !.sizeByte = b.sizeByte + 1, !.hpadZero = FALSE]), i)
+    [] e = "hpadPlus8LastNonzero" -> Reindex(SetB(s, i, [b EXCEPT !.sizeByte = b.sizeByte + 2, !.hpadZero = FALSE]), i)
     [] e = "dict41"        -> SetB(s, i, [b EXCEPT !.dictCode = 41])
     [] e = "dict255"       -> SetB(s, i, [b EXCEPT !.dictCode = 255])
     [] e = "dictLarger"    -> SetB(s, i, [b EXCEPT !.dictCode = b.dictCode + 3])
